@@ -22,6 +22,7 @@ import time
 VERIF = os.path.dirname(os.path.dirname(os.path.abspath(__file__)))
 REPO = os.environ.get("SEED_REPO", "/repo")
 PY = "/venv/bin/python"
+FALLBACK_BASE = "a0a910c"      # the revision of /repo the changes of rounds 1-11 were written against
 
 
 def sh(cmd, env=None, cwd=None, timeout=1200):
@@ -63,6 +64,15 @@ def main():
             clean_env = dict(os.environ, PYTHONPATH=os.path.join(REPO, "src"))
             rc_clean, out_clean = sh(["timeout", "120", PY, os.path.join(d, "demo.py")], env=clean_env, cwd=d)
             rc, out = sh(["git", "-C", wt, "apply", os.path.join(d, "patch.diff")])
+            if rc:
+                # the change was written against an earlier revision of /repo and touches lines a later "fix:"
+                # commit rewrote: it is judged on the revision it was written for
+                base = meta.get("base_rev") or FALLBACK_BASE
+                sh(["git", "-C", REPO, "worktree", "remove", "--force", wt])
+                shutil.rmtree(wt, ignore_errors=True)
+                sh(["git", "-C", REPO, "worktree", "add", "--detach", wt, base])
+                rc, out = sh(["git", "-C", wt, "apply", os.path.join(d, "patch.diff")])
+                row["base_rev"] = base
             if rc:
                 print(out)
                 row["status"] = "PATCH-DOES-NOT-APPLY"
@@ -118,6 +128,7 @@ def main():
                 "check_run": f"VERIF_REPO=<scratch worktree with the patch> run_check.py {prop} --tier quick --budget {budget} --seed 21",
                 "caught_by": row.get("caught_by"), "first_violation": row.get("violation"),
                 "seconds_to_violation": row.get("seconds"), "status": row["status"],
+                "judged_on": row.get("base_rev", "HEAD of /repo"),
             }
             with open(os.path.join(d, "meta.json"), "w") as f:
                 json.dump(meta, f, indent=1)
